@@ -353,4 +353,49 @@ example : (match processID (writerObjs ⟨false, true, true, false, true⟩ .gra
     | .error _ => none) = some ([65, 13], true, 6, some 2) := by
   decide +kernel
 
+/-! ## Round 6 — the branch selection of `export_image` as a decision table -/
+
+/-- One row of the decision table: an order-free condition on (plausibility, filters, bits, colour space) for each
+    of the nine branches.  `enc` = the data stays encoded (DCT / JPX last, or JBIG2 anywhere), `bm` = a bitmap kind. -/
+def Row (b : Branch) (im : ImgIn) : Prop :=
+  let pl := plausible im.w im.h im.bits = true
+  let last := im.filters.getLast?
+  let enc := last = some Flt.dct ∨ last = some Flt.jpx ∨ Flt.jbig2 ∈ im.filters
+  let bm := im.bits = 1 ∨ (im.bits = 8 ∧ (isRGB im.cs = true ∨ isGray im.cs = true))
+  match b with
+  | .undecoded => ¬ pl
+  | .jpeg => pl ∧ last = some Flt.dct
+  | .jpx => pl ∧ last = some Flt.jpx
+  | .jbig2 => pl ∧ last ≠ some Flt.dct ∧ last ≠ some Flt.jpx ∧ Flt.jbig2 ∈ im.filters
+  | .bmp1 => pl ∧ ¬ enc ∧ im.bits = 1
+  | .bmp24 => pl ∧ ¬ enc ∧ im.bits = 8 ∧ isRGB im.cs = true
+  | .bmp8 => pl ∧ ¬ enc ∧ im.bits = 8 ∧ isRGB im.cs = false ∧ isGray im.cs = true
+  | .bytes => pl ∧ ¬ enc ∧ ¬ bm ∧ im.filters = [Flt.flate]
+  | .raw => pl ∧ ¬ enc ∧ ¬ bm ∧ im.filters ≠ [Flt.flate]
+
+/-- **branch_table.** The table is total and its rows are pairwise disjoint: for every image exactly one row
+    holds, and it is the row of the branch the `if … elif` chain of `export_image` takes. -/
+theorem C18_branch_table (im : ImgIn) : Row (branchOf im) im ∧ ∀ b, Row b im → b = branchOf im := by
+  unfold branchOf
+  repeat' split
+  all_goals
+    refine ⟨by simp_all [Row], fun b hb => ?_⟩
+    cases b <;> simp_all [Row]
+
+/-- **export_by_branch.** `export_image` is "select the branch, then do what that branch does": extension, content
+    and the `(bytes_per_line, bits)` arguments of the bitmap writer are functions of the selected row alone. -/
+theorem C18_export_by_branch (im : ImgIn) (existing : List Bytes) :
+    exportImage im existing = exportBranch (branchOf im) im existing := by
+  unfold exportImage branchOf
+  repeat' split
+  all_goals simp_all [exportBranch, bmpArgsOf]
+
+/-- Non-vacuity: one image per row. -/
+example : (([⟨[], .gray, false, 64, 1, 1, [], []⟩, ⟨[.flate, .dct], .rgb, false, 8, 1, 1, [], []⟩,
+      ⟨[.jpx], .rgb, false, 8, 1, 1, [], []⟩, ⟨[.jbig2], .gray, false, 1, 1, 1, [], []⟩,
+      ⟨[.lzw], .other, false, 1, 9, 1, [], []⟩, ⟨[], .inlRgb, false, 8, 2, 1, [], []⟩,
+      ⟨[.a85], .gray, false, 8, 2, 1, [], []⟩, ⟨[.flate], .cmyk, false, 8, 1, 1, [], []⟩,
+      ⟨[], .none, false, 4, 1, 1, [], []⟩] : List ImgIn).map branchOf) =
+    [.undecoded, .jpeg, .jpx, .jbig2, .bmp1, .bmp24, .bmp8, .bytes, .raw] := by decide +kernel
+
 end PdfVerif.Props.C18
